@@ -39,8 +39,10 @@ ENGCXXFLAGS := -std=c++14 -O1 -g1 -w -DVERIF_COV
 LDFLAGS := --coverage
 endif
 ifeq ($(BUILD),plain)
+# for valgrind spot checks (uninitialised reads, which the sanitizer flavours cannot see)
 CXX := g++
-CXXFLAGS := -std=c++14 -O2 -g1 -w
+CXXFLAGS := -std=c++14 -O1 -g1 -w
+ENGCXXFLAGS := -std=c++14 -O1 -g1 -w -DVERIF_NO_LEDGER
 LDFLAGS :=
 endif
 LIBS := -lpcap -lcrypto -lpthread -ldl
@@ -76,6 +78,7 @@ setup:
 	$(MAKE) -C $(V) BUILD=asan lib -j16
 	for e in $(ENGINES_asan); do if [ -f $(V)/engines/$$e.cpp ]; then $(MAKE) -C $(V) BUILD=asan engine-$$e || exit 1; fi; done
 	if [ -f $(V)/engines/wire.cpp ]; then $(MAKE) -C $(V) BUILD=asancov lib -j16 && $(MAKE) -C $(V) BUILD=asancov engine-wire; fi
+	if [ -f $(V)/engines/wire.cpp ]; then $(MAKE) -C $(V) BUILD=plain lib -j16 && $(MAKE) -C $(V) BUILD=plain engine-wire; fi
 	if [ -f $(V)/engines/thr.cpp ]; then $(MAKE) -C $(V) BUILD=sancov lib -j16 && $(MAKE) -C $(V) BUILD=sancov engine-thr; fi
 
 clean:
